@@ -28,7 +28,7 @@ struct C11 : Property
 	std::vector<std::string> probes() const override
 	{
 		return {"set.grow_from_inline_to_heap", "set.grow_heap_to_bigger_heap", "set.shrink_within_heap", "set.shrink_within_inline", "set.to_zero_length_from_heap", "set.same_length",
-		        "set.embedded_nul", "set.non_utf8", "set.refused_length", "set.alloc_failed_contents_kept", "roundtrip.with_nul", "copy.of_heap_string", "strlen_variant_truncates", "serialize.colour_flag", "set.from_own_serialization", "set.from_slice_of_own_contents", "set.truncate_through_own_pointer"};
+		        "set.embedded_nul", "set.non_utf8", "set.refused_length", "set.alloc_failed_contents_kept", "roundtrip.with_nul", "copy.of_heap_string", "strlen_variant_truncates", "serialize.colour_flag", "set.from_own_serialization", "set.from_slice_of_own_contents", "set.truncate_through_own_pointer", "set.strlen_setter_with_own_pointer"};
 	}
 
 	static std::string gen_bytes(Rng &r, size_t prev)
@@ -341,6 +341,21 @@ struct C11 : Property
 					size_t cur = n.bytes.size();
 					size_t k = cur / 2 ? 1 + (size_t)op.arg(2) % (cur / 2) : 0; // 1 <= k <= cur/2
 					size_t off = k ? k + (size_t)op.arg(3) % (cur - 2 * k + 1) : 0; // k <= off, off + k <= cur: no overlap with [0,k)
+					if ((op.arg(1) & 2) && cur > 0 && (op.arg(3) & 1))
+					{
+						// the strlen-based setter given the node's own pointer: the contents become what strlen sees
+						const char *own = LIB(json_object_get_string(n.o));
+						rc = LIB(json_object_set_string(n.o, own));
+						if (rc != 1)
+							ctx.fail("C11:wrong-return", "op %zu: set_string(n, get_string(n)) returned %d", oi, rc);
+						size_t z = n.bytes.find('\0');
+						if (z != std::string::npos)
+							n.bytes.resize(z);
+						ctx.probe("set.strlen_setter_with_own_pointer");
+						cov += "|ownstr";
+						verify(ctx, n, oi, "selfsrc", true);
+						continue;
+					}
 					if ((op.arg(1) & 2) && cur > 0)
 					{
 						// truncation through the node's own pointer: set_string_len(n, get_string(n), k) with k below the length (also 0)
@@ -466,7 +481,23 @@ struct C11 : Property
 				Node &n = nodes[ni];
 				if (n.o)
 				{
+					// a delete callback may still read the node it is told about (it runs before the node is torn down)
+					struct DelProbe
+					{
+						const std::string *want;
+						bool ran, ok;
+					} probe{&n.bytes, false, false};
+					LIBV(json_object_set_userdata(n.o, &probe, [](struct json_object *jso, void *ud) {
+						HarnessScope hs;
+						DelProbe *pr = (DelProbe *)ud;
+						pr->ran = true;
+						const char *sp = json_object_get_string(jso);
+						int sl = json_object_get_string_len(jso);
+						pr->ok = sp && sl == (int)pr->want->size() && memcmp(sp, pr->want->data(), pr->want->size()) == 0 && sp[sl] == '\0';
+					}));
 					int rc = LIB(json_object_put(n.o));
+					if (!probe.ran || !probe.ok)
+						ctx.fail("C11:contents-gone-before-delete-callback", "op %zu: the node's delete callback %s", oi, probe.ran ? "read bytes that are not the last bytes set" : "did not run");
 					if (rc != 1)
 						ctx.fail("C11:put-did-not-free", "op %zu: json_object_put of the only reference returned %d", oi, rc);
 					n.o = nullptr;
